@@ -131,7 +131,14 @@ def run_plan(plan: dict) -> dict:
                 if n == "pipe" and d2["pipe"]["arrangement"] != cfg["pipe"]["arrangement"]:
                     pass  # a decoy pipe of another arrangement is the interesting case: keep it
                 decoys.append((n, d2))
-            mgr1 = gen.build_manager(cfg, order=plan["order"], decoys=decoys)
+            try:
+                mgr1 = gen.build_manager(cfg, order=plan["order"], decoys=decoys)
+            except Exception as e:  # noqa: BLE001
+                # the property speaks about configurations the API accepts; a constructor that rejects the (seeded) lot
+                # - e.g. a polygon on which the candidate generator finds no field - is not one of them
+                bump(f"configuration_rejected_by_api:{type(e).__name__}")
+                return {"status": "ok", "digest": digest([plan["order"], "rejected"]), "count": count, "nontrivial": False, "cost": 1,
+                        "sets": {}}
             if decoys:
                 bump("probe:manager_previously_configured_otherwise")
             f1 = rootp / "f1.json"
